@@ -87,6 +87,23 @@ fn check_step(p: &mut Pair, what: &str) -> Result<Expect, (String, String)> {
             if !user(a) && exp == Expect::Clean && !matches!(decode(w), Err(_)) { return Err(("clean-step-outside-user-space".into(), format!("{ctx}: a step classified clean accessed x{a:04X}"))); }
         }
     }
+    // (only on machines whose OS image the scenario has left as loaded: several target families plant sentinels inside the OS)
+    let os_intact = real && exp != Expect::Clean && super::osinfo::os().image.iter().all(|(a, w)| match w { Some(w) => p.sim.mem[*a].get() == *w, None => true });
+    if os_intact {
+        let want_acv = matches!(exp, Expect::Acv { .. });
+        let vec = if want_acv { 0x0102 } else { 0x0100 };
+        // "vectored to the OS exception handler": what was entered must behave as one, i.e. report and stop the machine, never hand control
+        // back to the offending program (the handler is followed, not looked up by name)
+        // (single steps neither set nor read the machine control register: it is switched on here so that the OS switching it off is visible)
+        p.sim.mcr().store(true, std::sync::atomic::Ordering::Relaxed);
+        let mut stopped = false;
+        for _ in 0..4000 {
+            match catch(|| p.sim.step_in()) { Ok(Ok(())) => {} Ok(Err(e)) => return Err(("exception-handler-fails".into(), format!("{ctx}: the entered handler failed with {e:?}"))), Err(m) => return Err((format!("panic:{}", panic_site(&m)), format!("{what}: {m}"))) }
+            if !p.sim.mcr().load(std::sync::atomic::Ordering::Relaxed) { stopped = true; break; }
+            if !p.sim.psr().privileged() { return Err((format!("handler-returns-to-program:{}", if want_acv { "acv" } else { "priv" }), format!("{ctx}: the handler entered through mem[x{vec:04X}] returned to user mode at x{:04X} instead of stopping the machine; it printed {:?}", p.sim.pc, String::from_utf8_lossy(&p.disp.get_buffer().read().unwrap_or_else(|e| e.into_inner())[d0.len()..])))); }
+        }
+        if !stopped { return Err(("exception-handler-does-not-stop".into(), format!("{ctx}: 4000 steps after exception entry the machine is still running"))); }
+    }
     Ok(exp)
 }
 fn opname(w: u16) -> &'static str { ["BR","ADD","LD","ST","JSR","AND","LDR","STR","RTI","NOT","LDI","STI","JMP","RES","LEA","TRAP"][(w >> 12) as usize] }
